@@ -30,6 +30,7 @@ def run(ctx):
     ctx.floor("C11.T7", "string emissions in Game::fen", len(em), 8)
     writer_board(ctx, F, em)
     writer_fields(ctx, F, em)
+    t8_board_dependent_rejections(ctx, F)
     reader(ctx, F)
     # re-import must give the same en-passant file (and hash): importer and Game::push record it under the same condition
     from . import p04
@@ -262,6 +263,66 @@ def writer_fields(ctx, F, em):
     fm_ok = not bad["tail"] and len(fm_terms) == 1 and list(fm_terms)[0].endswith("to_string(((<T, A>::len(self.move_stack) / 2) + 1))")
     ctx.check("C11.T7", "writer:fullmove-field", fm_ok, fn=WRITER, file=fn["file"], what="sixth field must be len(move_stack)/2 + 1",
               expected="to_string(len(move_stack) / 2 + 1)", found=sorted(fm_terms)[:2])
+
+
+def t8_board_dependent_rejections(ctx, F, rule="C11.T8"):
+    """A rejection (`bail!` / `return Err`) in the importer that depends on the board content - e.g. a plausibility check of the
+    en-passant square - must not fire for positions that come from a game: its condition is evaluated on boards consistent with
+    a double pawn push (pushed pawn in place, the squares it passed empty, a capturing pawn beside it), for both sides to move."""
+    from .common import enclosing_conditions, dependence_nodes, chess_evalcalls
+    fn = F.fn(READER)
+    body = fn["hir"]["body"]
+    env = hir.Env(fn["hir"], F)
+    keep = {"col", "current_player", "board"}
+    symt = hir.Sym(env, F, depth=30, through=True, keep=keep)
+    D = discr_map(F)
+    PCE, PT_ = "chess::piece::Piece", "chess::piece::PieceType::"
+    SOME, NONE = "std::prelude::v1::Some", ("variant", "std::prelude::v1::None")
+
+    def pc(kind, owner):
+        return ("ctor", SOME, (("struct", PCE, (("owner", ("variant", PL + owner)), ("piece_type", ("variant", PT_ + kind)))),))
+    n = 0
+    for r, anc in hir.walk(body):
+        if r.get("k") != "Ret" or r.get("e") is None:
+            continue
+        v = hir.fmt(symt(r["e"]), 80)
+        if not (r.get("mac") == "bail" or "Err(" in v):
+            continue
+        dep = [x for c_ in enclosing_conditions(r, fn["hir"]) for x in dependence_nodes(c_, fn["hir"])]
+        reads_board = any(x.get("k") == "Index" and hir.strip(x["e"]).get("to", {}).get("name") == "board" for x in dep) or \
+            any(x.get("k") == "MethodCall" and (hir.callee_of(x) or "").endswith("Game::get_position") for x in dep)
+        if not reads_board:
+            continue
+        n += 1
+        # only the conditions that look at the board (the syntactic guards around them use unrelated scanner variables)
+        def no_board(g_):
+            if not (g_[0] in ("if", "arm") and isinstance(g_[1], tuple)):
+                return True
+            return not any(x == ("var", "board") or x[:2] == ("call", "chess::Game::get_position") for x in hir.subterms(g_[1]))
+        term = hir.guards_term(hir.guards_of(r, body, symt) or [], skip=no_board)
+        bad = []
+        for side, other, prow, trow, orow in (("White", "Black", 4, 5, 6), ("Black", "White", 3, 2, 1)):
+            for f in (0, 3, 7):
+                for cap in (f - 1, f + 1):
+                    if not 0 <= cap <= 7:
+                        continue
+                    brd = {(prow, f): pc("Pawn", other), (trow, f): NONE, (orow, f): NONE, (prow, cap): pc("Pawn", side)}
+                    for c2 in (f - 1, f + 1):
+                        if 0 <= c2 <= 7 and (prow, c2) not in brd:
+                            brd[(prow, c2)] = NONE
+                    a = {("var", "current_player"): ("variant", PL + side), ("var", "col"): ("lit", f)}
+                    for (rr, cc), cont in brd.items():
+                        a[("index", ("var", "board"), ("lit", rr * 8 + cc))] = cont
+                    res = hir.fold(hir.resolve_consts(term, F), a, D, None, chess_evalcalls(brd))
+                    if not hir.all_leaves_false(res):
+                        bad.append({"side to move": side, "en-passant file": "abcdefgh"[f], "capturing pawn on": "abcdefgh"[cap],
+                                    "rejection condition": hir.fmt(res, 160)})
+        ctx.check(rule, "board-dependent-rejection-spares-positions-from-play#%d" % n, not bad, fn=READER, file=fn["file"], line=hir.line(r),
+                  what="the importer refuses (or may refuse) a FEN whose en-passant square comes from a real double pawn push: a position the "
+                       "engine itself exports cannot be loaded again",
+                  expected="no rejection when the pushed pawn stands on its square, the squares behind it are empty and a pawn can capture",
+                  found=bad[:3] or "not rejected")
+    ctx.note("%s: %d board-dependent rejection(s) in the importer evaluated on consistent en-passant boards" % (rule, n))
 
 
 _FACTS = [None]
